@@ -15,6 +15,7 @@ if TYPE_CHECKING:
 
 from autoarray.structures.arrays import array_2d_util
 from autoconf import conf
+from autoconf import cached_property
 
 
 def to_new_array(func):
@@ -83,7 +84,16 @@ class AbstractNDArray(ABC):
     def invert(self):
         new = self.copy()
         new._array = np.invert(new._array)
+        new._drop_cached_properties()
         return new
+
+    def _drop_cached_properties(self):
+        """
+        Cached properties are computed from the underlying array, so they must not outlive a change of that array.
+        """
+        for name in list(self.__dict__):
+            if isinstance(getattr(type(self), name, None), cached_property):
+                del self.__dict__[name]
 
     @classmethod
     def instance_flatten(cls, instance):
@@ -135,6 +145,7 @@ class AbstractNDArray(ABC):
         """
         new_array = self.copy()
         new_array._array = array
+        new_array._drop_cached_properties()
         return new_array
 
     def copy(self):
